@@ -55,6 +55,8 @@ def generate(seed, tier, index):
                     # subscribed / unsubscribed at run time through the definition's public attach_event_handler API
                     h["dynamic"] = True
                     h["coro"] = False
+                    # ... either a function, or the bound method of a helper object that nothing but the subscription refers to
+                    h["orphan_owner"] = rng.random() < 0.4
                 if rng.random() < 0.2:
                     other = rng.choice([e for e in ELEMENTS if e != (vec, el)])
                     h["on"].append(list(other))
@@ -376,7 +378,18 @@ def execute(scen):
             if op in ("attach", "detach"):
                 d = dynamic[st["hid"]]
                 if op == "attach" and d["uids"] is None:
-                    d["uids"] = [(src, src.attach_event_handler(d["type"], d["cb"])) for src in d["srcs"]]
+                    if scen["handlers"][st["hid"]].get("orphan_owner"):
+                        class Helper:
+                            def __init__(self, fn):
+                                self.fn = fn
+
+                            def on_event(self, event):
+                                return self.fn(event)
+
+                        d["uids"] = [(src, src.attach_event_handler(d["type"], Helper(d["cb"]).on_event)) for src in d["srcs"]]
+                        probes["handler_is_method_of_an_object_nobody_else_holds"] = 1
+                    else:
+                        d["uids"] = [(src, src.attach_event_handler(d["type"], d["cb"])) for src in d["srcs"]]
                     probes["handler_attached_at_run_time"] = probes.get("handler_attached_at_run_time", 0) + 1
                 elif op == "detach" and d["uids"] is not None:
                     for src, uid in d["uids"]:
